@@ -377,11 +377,15 @@ func (p *propC01) genMutation(idx int) *Scenario {
 		kinds = append(kinds, "reframed")
 	}
 	m := Medium{ID: "m0", Hex: hexs(b)}
-	switch r.Intn(5) {
+	switch r.Intn(7) {
 	case 0:
 		m.Tail = hexs(r.Bytes(r.Range(1, 64)))
 	case 1:
 		m.Tail = hexs(e.Bytes[:min(len(e.Bytes), 200)])
+	case 2:
+		m.Tail = strings.Repeat("00", r.Range(1, 70)) // zero padding behind the file
+	case 3:
+		m.Tail = strings.Repeat("ff", r.Range(1, 20))
 	}
 	sc := &Scenario{V: 1, Property: "C01", Engine: "rx", Family: "mutation", Seed: p.seed, Index: idx,
 		Media: []Medium{m}, Params: map[string]string{"kinds": strings.Join(kinds, ","), "base": e.Name}}
